@@ -39,6 +39,7 @@ package podtaskexecutor
 //@ pure envDone(n []v1.EnvVar, o []v1.EnvVar, upto int, sub subFunc) bool = len(n) == len(o) && (forall k int :: {n[k]} 0 <= k && k < len(o) ==> n[k].Name == o[k].Name && n[k].Value == (k <= upto ? sub(o[k].Value) : o[k].Value))
 //@ pure strsDone(n []string, o []string, upto int, sub subFunc) bool = len(n) == len(o) && (forall k int :: {n[k]} 0 <= k && k < len(o) ==> n[k] == (k <= upto ? sub(o[k]) : o[k]))
 //@ func substituteContainer
+//@   locals newContainer: *k8s.io/api/core/v1.Container
 //@   params container, sub
 //@   tags C18
 //@   loop 1 invariant -1 <= rangeindex && rangeindex < len(newContainer.Env) && newContainer != nil && fresh(newContainer)
